@@ -74,20 +74,27 @@ def add_extras(rng, inst):
                           for _ in range(rng.randint(0, 2))]
     inst["extra"] = ext
     seeds = []
+    sv = lambda: rng.choice([rng.randint(-20, 20) / 4, rng.randint(1, 20) / 4, 0.0, round(rng.uniform(-9, 9), 3)])  # noqa
     for m in range(inst["E"]):
         s = {}
         for v in V:
-            if rng.random() < 0.5:
+            if rng.random() < 0.35:
                 continue
             if v["kind"] == "extra":
-                if v["size"] == 1:
-                    s[v["name"]] = rng.randint(-20, 20) / 4
+                s[v["name"]] = sv() if v["size"] == 1 else {"vec": [sv() for _ in range(v["size"])]}
                 continue
+            grid = list(v["times"])
+            if rng.random() < 0.4:   # seed series on its own stamps: interpolated, 0 outside
+                r = rng.random()
+                if r < 0.5:
+                    d = rng.choice([0.25, -0.5])
+                    grid = [t + d for t in grid]
+                else:
+                    grid = [grid[0] - 1.0, (grid[0] + grid[-1]) / 2, grid[-1] - 0.125]
             if v["size"] == 1:
-                s[v["name"]] = {"t": list(v["times"]), "v": [rng.randint(-20, 20) / 4 for _ in v["times"]]}
+                s[v["name"]] = {"t": grid, "v": [sv() for _ in grid]}
             else:
-                s[v["name"]] = {"t": list(v["times"]),
-                                "v": [[rng.randint(-20, 20) / 4 for _ in range(v["size"])] for _ in v["times"]]}
+                s[v["name"]] = {"t": grid, "v": [[sv() for _ in range(v["size"])] for _ in grid]}
         seeds.append(s)
     inst["seed"] = seeds
     inst["prob"] = None
@@ -265,6 +272,34 @@ def results_values(inst, T, z):
     return out
 
 
+def expected_seed(inst, key):
+    """the user's seed of a named entry in physical units (0 where no seed is given)"""
+    m, nm, cc, i = key
+    byname = {v["name"]: v for v in inst["vars"]}
+    v = byname.get(nm)
+    if v is None:
+        return 0.0, None  # initial derivatives are not seeded
+    members = range(inst["E"]) if m == "c" else [m]
+    sd = None
+    for mm in members:  # shared control entries: the last member that gives a seed wins
+        if nm in inst["seed"][mm]:
+            sd = inst["seed"][mm][nm]
+    if sd is None:
+        return 0.0, None
+    if isinstance(sd, dict) and "vec" in sd:
+        return sd["vec"][cc], sd
+    if isinstance(sd, dict):
+        col = [r[cc] for r in sd["v"]] if isinstance(sd["v"][0], list) else sd["v"]
+        t = c05.var_times(v, inst["times"][0])[i]
+        return c05._interp_doc(v["mode"], sd["t"], col, 0.0, t)[0], sd
+    return float(sd), sd
+
+
+def seed_model_line(inst, v, sd):
+    w = c05.wire_blk(dict(v, lo=sd, hi=None), inst["times"][0])
+    return dict(op="seedblock", blk=w)
+
+
 def model_phys_lines(inst):
     w = c05.wire_inst(inst)
     w["op"] = "phys"
@@ -337,6 +372,22 @@ def stream_pairs(c, n):
                 c.fail("nominal * %s differs between two nominal choices" % what, case,
                        [{"entry": list(A["keys"][k]), "a": float(A[what][k]), "b": float(B[what][k]),
                          "nom_a": float(A["nu"][k]), "nom_b": float(B["nu"][k])} for k in bad])
+        # the seed vector is the user's seed per named entry (independent of the pair comparison)
+        for (T, ii, which) in ((A, inst, "first"), (B, inst2, "second")):
+            nbad = 0
+            for kk, key in enumerate(T["keys"]):
+                e, sd = expected_seed(ii, key)
+                if not arr_close([T["x0"][kk]], [e], rtol=1e-9, atol=1e-12):
+                    nbad += 1
+                    if nbad <= 2:
+                        c.fail("nominal * x0 of a named entry is not the user's seed", case,
+                               {"variant": which, "entry": list(map(str, key)), "expected": e,
+                                "got": float(T["x0"][kk]), "nominal": float(T["nu"][kk])})
+                if sd is not None and key[1].startswith("pv") and isinstance(ii["vars"][0], dict):
+                    vv = [w for w in ii["vars"] if w["name"] == key[1]][0]
+                    if vv["size"] > 1 and isinstance(vv["nom"], list) and len(set(vv["nom"])) > 1 and e != 0.0 and nbad == 0 \
+                            and key[2] == 0 and key[3] == 0:
+                        c.hit("class/seeded-vector-path-variable-unequal-component-nominals")
         if A["affine"] and B["affine"]:
             c.hit("pair/affine-complete")
             Ra = rows_canon(A["A"], A["g0"], A["lbg"], A["ubg"])
@@ -398,6 +449,33 @@ def run_pairs(c, n):
         lines.append(model_phys_lines(inst))
         lines.append(model_phys_lines(inst2))
     outs = c.model(lines) if lines else []
+    # seed blocks: scaled x0 of every seeded (member, variable) against the model's block
+    slines, smeta = [], []
+    for inst, A, inst2, B in todo:
+        for (ii, T) in ((inst, A), (inst2, B)):
+            raw_x0 = np.array(T["raw"]["rec"]["x0"], dtype=float).ravel()
+            for v in ii["vars"]:
+                members = [0] if v["kind"] == "control" else range(ii["E"])
+                for m in members:
+                    key0 = ("c" if v["kind"] == "control" else m, v["name"], 0, 0)
+                    _, sd = expected_seed(ii, key0)
+                    if sd is None:
+                        continue
+                    n_t = len(c05.var_times(v, ii["times"][0]))
+                    want = []
+                    for cc in range(v["size"]):
+                        for i in range(n_t):
+                            kk = T["keys"].index((key0[0], v["name"], cc, i))
+                            want.append(float(raw_x0[T["idx"][kk]]))
+                    slines.append(seed_model_line(ii, v, sd))
+                    smeta.append((c05.case_of(ii), v["name"], m, want))
+    souts = c.model(slines) if slines else []
+    if souts is not None:
+        for mo, (case, nm, m, want) in zip(souts, smeta):
+            c.count(None, n=len(want))
+            if mo == "raise" or len(mo) != len(want) or not all(same(a, b) for a, b in zip(mo, want)):
+                c.disagree("seed block x0 of a variable (component-major, seed / nominal)", case, mo,
+                           {"variable": nm, "member": m, "x0": want})
     if outs is None:
         return
     for k, (inst, A, inst2, B) in enumerate(todo):
